@@ -2,6 +2,7 @@ package rules
 
 import (
 	"cvcheck/internal/core"
+	"strings"
 
 	"golang.org/x/tools/go/ssa"
 )
@@ -35,6 +36,10 @@ func C10(c *Ctx) {
 			return t.Kind == "extract" && t.Name == "1" && t.Args[0].Kind == "typeassert,ok" && t.Args[0].Name == "*types.Signature"
 		}))
 	}
+	if lm := c.MustMethod("C10-3", "/pkg/parser", "Parser", "lookupManipulatorFunc"); lm != nil {
+		c.rejects("C10-3", lm, "not-variadic", "a variadic function is accepted as hook although the call is emitted with one plain argument per parameter",
+			c.M(false, func(t *core.Term) bool { return t.IsCallTo("(*go/types.Signature).Variadic") }))
+	}
 	bm := c.MustMethod("C10-3", "/pkg/builder", "FunctionBuilder", "buildManipulator")
 	if bm != nil {
 		side := func(fld, param string) func(*core.Term) bool {
@@ -42,9 +47,10 @@ func C10(c *Ctx) {
 				if !t.IsCallTo(fnAssignable) {
 					return false
 				}
+				// AssignableTo(V, T): V is the type of the value handed over (the method's operand), T the hook's parameter
 				a0, a1 := t.Args[0], t.Args[1]
-				return a0.Contains(func(s *core.Term) bool { return s.IsField("option.Manipulator." + fld) }) &&
-					a1.Contains(func(s *core.Term) bool { return s.Is("param", param) })
+				return a1.Contains(func(s *core.Term) bool { return s.IsField("option.Manipulator." + fld) }) &&
+					a0.Contains(func(s *core.Term) bool { return s.Is("param", param) })
 			}
 		}
 		var srcP, dstP string
@@ -57,8 +63,32 @@ func C10(c *Ctx) {
 				}
 			}
 		}
-		c.rejects("C10-3", bm, "dst-type", "the hook's first parameter type is not checked against the destination", c.M(true, side("DstSide", dstP)))
-		c.rejects("C10-3", bm, "src-type", "the hook's second parameter type is not checked against the source", c.M(true, side("SrcSide", srcP)))
+		c.rejects("C10-3", bm, "dst-type", "the destination's type is not checked for assignability TO the hook's first parameter (AssignableTo(operand, parameter); the reverse order accepts a *bytes.Buffer parameter for an io.Writer operand)", c.M(true, side("DstSide", dstP)))
+		c.rejects("C10-3", bm, "src-type", "the source's type is not checked for assignability TO the hook's second parameter (AssignableTo(operand, parameter))", c.M(true, side("SrcSide", srcP)))
+		// every assignability judgement in the validation asks operand → parameter
+		nA := 0
+		for _, sc := range c.CallsIn(bm, fnAssignable, false) {
+			nA++
+			a0, a1 := c.O.Of(sc.Args()[0]), c.O.Of(sc.Args()[1])
+			isHookSide := func(t *core.Term) bool {
+				return t.Contains(func(x *core.Term) bool { return x.Kind == "field" && strings.HasPrefix(x.Name, "option.Manipulator.") })
+			}
+			r.Check("C10-3", sprintf("%s:assignable%d:operand-to-parameter", FnKey(bm), nA), c.Pos(sc.Pos()), isHookSide(a1) && !isHookSide(a0),
+				"types.AssignableTo(V, T) must be asked with V = the type of the method's operand and T = the hook's parameter type, got AssignableTo("+a0.String()+", "+a1.String()+")")
+		}
+		r.Floor("C10-3", "assignability judgements in the hook validation", nA, 3)
+		// a dot-imported hook package gives no qualifier
+		dotReset := false
+		for _, b := range bm.Blocks {
+			for _, in := range b.Instrs {
+				if st, ok := in.(*ssa.Store); ok {
+					if fa, ok := st.Addr.(*ssa.FieldAddr); ok && core.FieldName(fa.X.Type(), fa.Field) == "model.Manipulator.Pkg" && c.O.Of(st.Val).Is("const", `""`) {
+						dotReset = true
+					}
+				}
+			}
+		}
+		r.Check("C10-3", FnKey(bm)+":dot-import-unqualified", c.Pos(bm.Pos()), dotReset, "the import table name \".\" (dot import) is used as the hook's package qualifier: the call is emitted as `..Hook(…)`")
 		hookArgs := func(t *core.Term) bool { return t.IsField("option.Manipulator.AdditionalArgs") }
 		c.rejects("C10-3", bm, "extra-count", "a hook with a different number of extra parameters is accepted",
 			c.atMost(lenOf(hookArgs), 0), c.M(false, func(t *core.Term) bool {
@@ -172,6 +202,9 @@ func C10(c *Ctx) {
 				return t.Kind == "invoke" && t.Name == "(types.Object).Name" && t.Args[0].IsField("option.Manipulator.Func")
 			},
 			"Pkg": func(t *core.Term) bool {
+				if t.Is("const", `""`) {
+					return true // reset for a dot-imported package (checked below: only under Pkg == ".")
+				}
 				return t.Kind == "extract" && t.Name == "0" && t.Args[0].IsCallTo("("+pUtil+"ImportNames).LookupName") && t.Args[0].Args[1].Contains(func(s *core.Term) bool { return s.IsField("option.Manipulator.Func") })
 			},
 			"HasAdditionalArgs": func(t *core.Term) bool { return t.Is("const", "true") },
@@ -196,6 +229,9 @@ func C10(c *Ctx) {
 				seen[fld] = true
 				pred := want[fld]
 				ok2 := pred != nil && pred(c.O.Of(st.Val))
+				if fld == "Pkg" && ok2 && c.O.Of(st.Val).Is("const", `""`) {
+					ok2 = c.ReachOf(st).Implies(c.M(true, eqConst(func(t *core.Term) bool { return t.IsField("model.Manipulator.Pkg") }, `"."`)))
+				}
 				if fld == "HasAdditionalArgs" && ok2 {
 					d := c.ReachOf(st)
 					ok2 = d.Implies(c.atLeast(lenOf(func(t *core.Term) bool { return t.IsField("option.Manipulator.AdditionalArgs") }), 1))
